@@ -659,6 +659,8 @@ func c20selfjoin(p *Program, r *Report, rule string) {
 
 func runC09(p *Program, r *Report) {
 	armingRules(p, r, true, false)
+	// a lock kept by a call that returned an error is never released: Close / CloseNow block in forceLock (seed C09-M)
+	shareAs(r, "C06.recheck", "C09.mu", func(sub *Report) { c06closed(p, sub, "C09.closedpoll") })
 	c09sites(p, r, "C09.sites")
 	cRwc(p, r, "C09.rwc")
 	c09ctx(p, r, "C09.ctx")
@@ -742,7 +744,7 @@ func c10loop(p *Program, r *Report, rule string) {
 	if fn == nil {
 		return
 	}
-	p.forAllPaths(r, rule, fn, "watcher loop", Opts{Unroll: 2},
+	p.forAllPaths(r, rule, fn, "watcher loop", Opts{Unroll: 3},
 		"each iteration is one select over closed, the two timeout channels and the Done channels of the two contexts currently held; closed ↦ return; a Done ↦ c.close() and return; a received context is waited on (its Done is a case) in the next iteration and replaces exactly one of the two",
 		func(pa *Path) (bool, string) {
 			var sels []*Event
@@ -796,6 +798,34 @@ func c10loop(p *Program, r *Report, rule string) {
 					}
 					if !recvd {
 						return false, "the received context is not waited on in the next iteration"
+					}
+					// one context per direction: after a context arrived on each of the two channels, both are waited on (a
+					// watcher that keeps both in one variable forgets the first: seed C05-N)
+					if i+2 < len(sels) {
+						if ch2 := next.Chan.Key(); (ch2 == "Conn.readTimeout" || ch2 == "Conn.writeTimeout") && ch2 != ch {
+							// the Done() calls of the third iteration: the events between the second and the third select
+							dones := map[string]bool{}
+							in := false
+							for _, ev := range pa.Events {
+								if ev == next {
+									in = true
+									continue
+								}
+								if ev == sels[i+2] {
+									break
+								}
+								if in && isCall(ev, "invoke context.Context.Done") && strings.HasPrefix(argKey(ev, 0), "recv:") {
+									for _, a := range sels[i+2].Args {
+										if a.Key() == ev.Res.Key() {
+											dones[argKey(ev, 0)] = true
+										}
+									}
+								}
+							}
+							if len(dones) < 2 {
+								return false, "after a context arrived on each channel only one of them is still waited on: the other direction's context was overwritten"
+							}
+						}
 					}
 				default:
 					return false, "unexpected case on " + ch
@@ -976,6 +1006,8 @@ func cSpawns(p *Program, r *Report, rule string) {
 
 func runC20(p *Program, r *Report) {
 	cSpawns(p, r, "C20.inventory")
+	// a goroutine that dead-locks on a lock its own call stack holds never exits, and Close/CloseNow queue behind it (seed C20-M)
+	c05noreacquire(p, r, getLockEnv(p), "C20.noreacquire")
 	// timers stopped
 	if fn := p.Func("netConn.Close"); fn != nil {
 		p.forAllPaths(r, "C20.timers", fn, "timers stopped", Opts{}, "netConn.Close stops both deadline timers and closes the connection", func(pa *Path) (bool, string) {
